@@ -163,11 +163,11 @@ def _report(ctx, key, where_node, fq, only_l, only_r, desc):
     return bad
 
 
-def run_function_pairs(prog, ctx, tag, modules):
+def run_function_pairs(prog, ctx, tag, modules, only=None):
     """The function pairs of the given modules only (used by other properties that rely on one strand being the mirror of the other)."""
     n = 0
     for rel, lq, rq, rkw, desc in FUNCTION_PAIRS:
-        if rel not in modules:
+        if rel not in modules or (only is not None and lq not in only):
             continue
         fl, fr = prog.func(rel, lq), prog.func(rel, rq)
         try:
